@@ -53,7 +53,15 @@ def run_case(case: dict) -> dict:
         pole = case["options"]["poles"]
         probe(res, f"poles_{pole}")
         excl = set(case.get("exclude") or [])
-        geom.check_power(w, pole, res, excl)
+        user_poles = frozenset()
+        try:
+            it0 = lang.Interp(stmts)
+            it0.run({i["name"]: i["init"] for i in case["inputs"]}, {})
+            user_poles = frozenset((p.proto, p.x, p.y) for p in it0.places
+                                   if gamedata.kind_of(p.proto) == "pole")
+        except lang.RefError:
+            pass
+        geom.check_power(w, pole, res, excl, user_poles)
         # ---- twin without poles
         opts = dict(case["options"])
         opts["poles"] = None
@@ -61,7 +69,7 @@ def run_case(case: dict) -> dict:
         merge_fired(res, comp2)
         if comp2["ok"]:
             w2 = World(comp2["bp"])
-            geom.check_power(w2, None, res)
+            geom.check_power(w2, None, res, frozenset(), user_poles)
             it = lang.Interp(stmts)
             try:
                 it.run({i["name"]: i["init"] for i in case["inputs"]}, {})
